@@ -70,7 +70,7 @@ def run(ctx):
                        'a fresh analysis lists every vulnerability id once (FindVulnerabilities groups by id); C12_duplicate_witness shows the hypothesis matters']
     ctx.rule = ('cp = 0-6 patches (1-2 updates over 4 packages x 2 old versions, 1-2 fixed ids, sometimes introduced ids) x MaxUpgrades in {-1,0,1,2,3} x NoIntroduce, through the real choosePatches and '
                 'computeVulnsResult; cd = old/new vulnerability id lists and old/new requirement lists (real package.json manifests) through the real ConstructPatches; '
-                'e2e = universe of 2-4 packages (dotted/scoped names, 1-6 versions, transitive package) x manifest (1-4 requirements, dev deps; for npm every second manifest requires one package through 1-2 extra npm: alias entries at the identical or another range, every second of them in devDependencies / optionalDependencies while the plain entry sits in dependencies) ; every eighth case Maven/override on 1-3 dependency-free direct packages whose <version> is a property the pom defines (one literal entry mixed in now and then), so that the writer only has property values to change; every eighth Maven/override on a multi-module layout top/[mid/]app — the manifest with 1-2 local parent poms, poms below the top leaving out their own groupId/version or relativePath, direct packages declared with explicit versions (or a property of the declaring pom) at any level, a vulnerable one usually in the <dependencies> of a parent: the fix has to reach the parent file) x 1-3 vulnerabilities (chains: fixed here, introduced '
+                'e2e = universe of 2-4 packages (dotted/scoped names, 1-6 versions, transitive package) x manifest (1-4 requirements, dev deps; for npm every second manifest requires one package through 1-2 extra npm: alias entries at the identical or another range, every second of them in devDependencies / optionalDependencies while the plain entry sits in dependencies) ; every eighth case Maven/override on 1-3 dependency-free direct packages whose <version> is a property the pom defines (one literal entry mixed in now and then), so that the writer only has property values to change; every eighth Maven/override on a multi-module layout top/[mid/]app — the manifest with 1-2 local parent poms, poms below the top leaving out their own groupId/version or relativePath, direct packages declared with explicit versions (or a property of the declaring pom) at any level, a vulnerable one usually in the <dependencies> of a parent: the fix has to reach the parent file) ; alias-linked records with different ranges (A on lib below a version, B — aliases [A] — from there on; the alias on either or both, a chain of three, an alias nothing has; lib direct or one edge down); a vulnerability the options hide in the original graph and the patch exposes) x 1-3 vulnerabilities (chains: fixed here, introduced '
                 'there) x options (MaxUpgrades, NoIntroduce, ignore/explicit lists, DevDeps, MaxDepth, per-package levels), npm/relax and Maven/override, through the real FixVulns twice; every fourth case pins a '
                 'transitive package at level None below a package whose patch (MaxUpgrades = 1) fixes the pinned package\'s vulnerability as a side effect; every eighth case has an ignore list (ids and '
                 'aliases) naming vulnerabilities that are absent from the original graph and enter only with what the patch brings in. Options are rebuilt from the case for each of the two runs. '
